@@ -1238,6 +1238,12 @@ def _c15b_worker(args):
             if st[0] != "s":
                 apply_step(sb, st)
                 continue
+            frng = SplitMix.derive(seedv, "c15bfault", idx, i)
+            if frng.chance(1, 3) and sb.archive_file() is not None:
+                # a dry run must not touch the recorded state whatever condition that state is in
+                kind = frng.pick(["only-bak", "only-bak-and-tmp", "only-tmp", "remove", "garbage", "empty"])
+                if inject_fault(sb, kind, frng) is not None:
+                    cnt("dry_runs_on_damaged_archive[%s]" % kind)
             pre = sb.snaps()
             arch0 = sb.archive_listing()
             home0 = snapshot(sb.home)
